@@ -195,9 +195,12 @@ fn drive_engine(id: &str, flavour: &str, rng: &mut Rng, maxops: u64) -> Runner {
     let hcap = if caps { *rng.pick(&[0i64, 1000, 2500, 5000]) } else { 0 };
     let oicap = if caps { *rng.pick(&[0i64, 30000, 60000, 100000]) } else { 0 };
     let nv = if flavour == "multi" { 2 } else { 1 };
+    // pool variants: the standard price-10 pool, and pools at / below price 1 (x*y kept <= 1.2e9 for TLC)
+    let (px, py) = *rng.pick(&[(100000i64, 10000i64), (100000, 10000), (100000, 10000), (100000, 10000),
+                               (30000, 30000), (20000, 50000), (12000, 90000), (250000, 4000)]);
     let mut vs = vec![];
     for _ in 0..nv {
-        vs.push(json!({"toll": toll, "spread": spread, "fluct": fluct, "period": 3600, "hcap": hcap, "oicap": oicap}));
+        vs.push(json!({"x": px, "y": py, "toll": toll, "spread": spread, "fluct": fluct, "period": 3600, "hcap": hcap, "oicap": oicap}));
     }
     let dep = json!({
         "collateral": if native {"native"} else {"cw20"}, "dec": 2,
@@ -205,6 +208,7 @@ fn drive_engine(id: &str, flavour: &str, rng: &mut Rng, maxops: u64) -> Runner {
         "engine": {"imr": imr, "mmr": mmr, "liqfee": liqfee, "plr": plr},
         "vamms": vs,
         "ifund_bal": *rng.pick(&[5000 * d, 5000 * d, 5000 * d, 50 * d, 0]),
+        "oracle": px * d / py,
     });
     let mut r = Runner::new(id, &dep);
     let vnames: Vec<String> = r.w.vamms.clone();
@@ -234,7 +238,8 @@ fn drive_engine(id: &str, flavour: &str, rng: &mut Rng, maxops: u64) -> Runner {
                 10 => *rng.pick(&[99i64, 101, 1999, 2001, 1000 * 100 / imr.max(1), 1000 * 100 / imr.max(1) + 1, 333]),
                 _ => 1000,
             };
-            let max_notional = if big { 60000 } else { 20000 };
+            let max_notional = (if big { 60000 } else { 20000 }) * px / 100000;
+            let max_notional = max_notional.max(600);
             let notional = if flavour == "fluct" {
                 // sizes on either side of the per-block band edge (price moves ~ 2*q/x)
                 let edge = x * fluct / 200;
@@ -250,7 +255,7 @@ fn drive_engine(id: &str, flavour: &str, rng: &mut Rng, maxops: u64) -> Runner {
                 margin += rng.range(0, 3);
             }
             // keep the pool inside a range TLC can multiply
-            let side = if x > 220000 { "sell" } else if x < 45000 { "buy" } else if rng.chance(50) { "buy" } else { "sell" };
+            let side = if x > px * 22 / 10 { "sell" } else if x < px * 45 / 100 { "buy" } else if rng.chance(50) { "buy" } else { "sell" };
             let side = if has && rng.chance(if flavour == "funding" { 60 } else { 35 }) {
                 // bias: trade against the current position (reduce / reverse)
                 if num(&p["size"]) > 0 { "sell" } else { "buy" }
@@ -305,16 +310,28 @@ fn drive_engine(id: &str, flavour: &str, rng: &mut Rng, maxops: u64) -> Runner {
             };
             r.op(&json!({"k": "block", "dh": 1, "dt": dt}));
         } else if roll < 97 {
-            let price = *rng.pick(&[600i64, 800, 900, 1000, 1000, 1100, 1250, 1500]);
+            let base_price = px * d / py;
+            let price = (base_price * *rng.pick(&[60i64, 80, 90, 100, 100, 110, 125, 150]) / 100).max(1);
             let now = num(&post["blk"]["t"]);
             let key = r.w.base_asset(&v);
             r.op(&json!({"k": "tx", "c": "feed", "m": "append_price", "s": "owner", "a": {"key": key, "price": price, "t": now}}));
         } else {
-            match rng.below(4) {
+            let dirq = if rng.chance(50) { "add" } else { "rem" };
+            match rng.below(14) {
                 0 => r.op(&json!({"k": "query", "c": "engine", "q": "margin_ratio", "a": {"vamm": v, "trader": t}})),
                 1 => r.op(&json!({"k": "query", "c": "engine", "q": "free_collateral", "a": {"vamm": v, "trader": t}})),
-                2 => r.op(&json!({"k": "query", "c": &v, "q": "output_twap", "a": {"dir": if rng.chance(50) {"add"} else {"rem"}, "amount": rng.range(1, 3000)}})),
-                _ => r.op(&json!({"k": "query", "c": &v, "q": "twap_price", "a": {"interval": *rng.pick(&[60i64, 900, 3600])}})),
+                2 => r.op(&json!({"k": "query", "c": &v, "q": "output_twap", "a": {"dir": dirq, "amount": rng.range(1, 3000)}})),
+                3 => r.op(&json!({"k": "query", "c": &v, "q": "twap_price", "a": {"interval": *rng.pick(&[60i64, 900, 3600])}})),
+                4 => r.op(&json!({"k": "query", "c": &v, "q": "input_twap", "a": {"dir": dirq, "amount": rng.range(1, 20000)}})),
+                5 => r.op(&json!({"k": "query", "c": "engine", "q": "unrealized_pnl", "a": {"vamm": v, "trader": t, "opt": *rng.pick(&["spot_price", "twap", "oracle"])}})),
+                6 => r.op(&json!({"k": "query", "c": "engine", "q": "position", "a": {"vamm": v, "trader": t}})),
+                7 => r.op(&json!({"k": "query", "c": "engine", "q": "position_with_funding_payment", "a": {"vamm": v, "trader": t}})),
+                8 => r.op(&json!({"k": "query", "c": "engine", "q": "cumulative_premium_fraction", "a": {"vamm": v}})),
+                9 => r.op(&json!({"k": "query", "c": &v, "q": "is_over_spread_limit", "a": {}})),
+                10 => r.op(&json!({"k": "query", "c": &v, "q": "is_over_fluctuation_limit", "a": {"dir": dirq, "amount": rng.range(1, 3000)}})),
+                11 => r.op(&json!({"k": "query", "c": &v, "q": "calc_fee", "a": {"amount": rng.range(0, 50000)}})),
+                12 => r.op(&json!({"k": "query", "c": &v, "q": "underlying_twap_price", "a": {"interval": *rng.pick(&[60i64, 900, 3600])}})),
+                _ => r.op(&json!({"k": "query", "c": &v, "q": "input_price", "a": {"dir": dirq, "amount": rng.range(1, 20000)}})),
             };
         }
     }
